@@ -1,4 +1,4 @@
-CONSTANTS MaxOps = 3 MaxNew = 0
+CONSTANTS MaxOps = 3 MaxNew = 1
 INIT Init
 NEXT Next
 INVARIANTS Conserved PenaltyOK AsMinOK RelaxedOK RoundTripOK
